@@ -96,8 +96,14 @@ def k_ctf2(shape):
 
 def k_frozen_phonons(shape):
     import abtem
-    seeds = tuple(11 + 7 * i for i in range(shape[0]))
+    seeds = tuple([1000003, 17, 65537, 3, 424242, 5, 99991, 8][i % 8] + 10 * (i // 8) for i in range(shape[0]))
     obj = abtem.FrozenPhonons(_atoms(), num_configs=shape[0], sigmas=0.1, seed=seeds)
+    return obj, lambda o: [[int(s) for s in o.seed]]
+
+
+def k_frozen_phonons_generated(shape):
+    import abtem
+    obj = abtem.FrozenPhonons(_atoms(), num_configs=shape[0], sigmas=0.1, seed=3)
     return obj, lambda o: [[int(s) for s in o.seed]]
 
 
@@ -168,7 +174,7 @@ def _array_obj(shape, axis_kinds, lazy, cls="Waves"):
 
 KINDS1 = {
     "line_scan": lambda sh: k_line_scan(sh, False), "line_scan_endpoint": lambda sh: k_line_scan(sh, True),
-    "custom_scan": k_custom_scan, "aperture_distribution": k_aperture, "frozen_phonons": k_frozen_phonons,
+    "custom_scan": k_custom_scan, "aperture_distribution": k_aperture, "frozen_phonons": k_frozen_phonons, "frozen_phonons_generated_seeds": k_frozen_phonons_generated,
     "atoms_ensemble": k_atoms_ensemble,
     "waves_ordinal": lambda sh: _array_obj(sh, ["ordinal"], False), "waves_ordinal_lazy": lambda sh: _array_obj(sh, ["ordinal"], True),
     "waves_scan_axis": lambda sh: _array_obj(sh, ["scan"], False), "waves_positions": lambda sh: _array_obj(sh, ["positions"], True),
